@@ -352,6 +352,7 @@ func c13(r *core.Report) {
 	c13SecondPass(r)
 	c13Captured(r)
 	c13ReadGuard(r)
+	c13IndexSpace(r)
 	settingsReadOnly(r, "C13.settingsro")
 	p := r.Prog
 	pk := p.Pkg("openapi3filter")
